@@ -21,7 +21,7 @@ RULE = ('case = (JSON-like tree with placeholder strings at random depths, globa
         'non-trivial = tree holds >=1 string with a defined placeholder at depth >=1; distinct = hash(tree, vars)')
 REQUIRED = ['trees', 'strings_substituted', 'strings_undefined_only', 'nonstring_leaves_checked', 'second_application',
             'copies_checked', 'config_cases', 'uses_path_substituted', 'object_args_substituted', 'context_values_substituted',
-            'config_object_uses_checked', 'gv_style_property', 'gv_style_inherited', 'gv_style_module']
+            'config_object_uses_checked', 'context_reuse_configs', 'path_parameters_checked', 'gv_style_property', 'gv_style_inherited', 'gv_style_module']
 ASSUMPTIONS = ['strings where a `{` occurs inside an open brace pair ({{A}}, {a{B}}) are ambiguous: only idempotence, type and '
                'non-interference are checked there',
                'mapping keys, tuples/sets, dunder attribute names and replacement values containing braces are outside the checked text oracle']
@@ -262,7 +262,8 @@ def check_config_case(rng, res: CaseResult):
     try:
         sub = rng.choice(['cfgs', 'c d', 'ünï', 'x1'])
         (tmp / sub).mkdir()
-        vars_ = {'DIR': str(tmp / sub), 'A': rng.choice(['va', '1', 'x/y', 'é']), 'NUM': rng.randint(0, 99), 'B': 'bb'}
+        vars_ = {'DIR': str(tmp / sub), 'A': rng.choice(['va', '1', 'x/y', 'é']), 'NUM': rng.randint(0, 99), 'B': 'bb',
+                 'STORE': rng.choice(['~/store', '~', '/abs/store', 'rel/store', '~user/x'])}
         as_object = rng.choice(GV_STYLES)
         gv = make_gv(vars_, as_object)
         nested = {'deep': ['{A}', {'k': 'pre-{B}-{U}'}], 'n': 3}
@@ -285,11 +286,11 @@ def check_config_case(rng, res: CaseResult):
         class Probe(Task):
             class Meta:
                 parameters = [Parameter('own'), Parameter('ctx_param'), Parameter('obj'), Parameter('lst'),
-                              Parameter('ctx_file_param')]
+                              Parameter('ctx_file_param'), Parameter('pth', dtype=Path, default=None)]
 
-            def run(self, own, ctx_param, obj, lst, ctx_file_param) -> dict:
+            def run(self, own, ctx_param, obj, lst, ctx_file_param, pth) -> dict:
                 return {'own': own, 'ctx_param': ctx_param, 'obj_path': obj.path, 'obj_items': obj.items, 'lst': lst,
-                        'ctx_file_param': ctx_file_param}
+                        'ctx_file_param': ctx_file_param, 'pth': [type(pth).__name__, str(pth)]}
 
         class UsedProbe(Task):
             class Meta:
@@ -315,6 +316,7 @@ def check_config_case(rng, res: CaseResult):
             'tasks': [Probe],
             'uses': ['{DIR}/used.' + fmt + (' as ns' if rng.random() < 0.5 else '')],
             'own': 'o-{A}/{NUM}/{U}',
+            'pth': '{STORE}/models',
             'lst': ['{A}', ['{B}{B}', 5, None], {'m': '{NUM}'}],
             'obj': {'class': f'{__name__}.PObj', 'kwargs': {'path': '{DIR}/f-{A}', 'items': ['{B}', {'z': '{A}'}]}},
         }
@@ -364,6 +366,7 @@ def check_config_case(rng, res: CaseResult):
             'obj_path': ref_sub('{DIR}/f-{A}', vars_), 'obj_items': [vars_['B'], {'z': vars_['A']}],
             'lst': [vars_['A'], [vars_['B'] * 2, 5, None], {'m': str(vars_['NUM'])}],
             'ctx_file_param': ref_sub('cf-{A}-{NUM}', vars_),
+            'pth': ['PosixPath', str(Path(ref_sub('{STORE}/models', vars_)))],
         }
         got = json.loads(json.dumps(v))
         for k in exp:
@@ -386,6 +389,10 @@ def check_config_case(rng, res: CaseResult):
         prm = task.params._parameters['own']
         if prm.value_repr() != "'o-{A}/{NUM}/{U}'":
             res.violate(f'parameter repr for persistence is {prm.value_repr()!r}, expected the placeholder form', witness=wit)
+        pth_repr = task.params._parameters['pth'].value_repr()
+        res.count('path_parameters_checked')
+        if '{STORE}' not in pth_repr:
+            res.violate(f'Path-typed parameter: repr for persistence is {pth_repr!r}, expected the placeholder form of {{STORE}}/models (STORE={vars_["STORE"]!r})', witness=wit)
         lst_repr = task.params._parameters['lst'].value_repr()
         if lst_repr != "['{A}', ['{B}{B}', 5, None], {'m': '{NUM}'}]":
             res.violate(f'nested parameter repr for persistence is {lst_repr!r}', witness=wit)
@@ -418,6 +425,73 @@ def check_config_case(rng, res: CaseResult):
         shutil.rmtree(tmp, ignore_errors=True)
 
 
+def exact_types(v):
+    """structure with the exact type name of every string leaf (ReprStr vs str)"""
+    if isinstance(v, dict):
+        return {k: exact_types(x) for k, x in v.items()}
+    if isinstance(v, list):
+        return [exact_types(x) for x in v]
+    return [type(v).__name__, v] if isinstance(v, str) else v
+
+
+def check_context_reuse_case(rng, res: CaseResult):
+    """one context object (dict or Context) given to two configs with different global_vars: each task gets ITS substitution, the caller's
+    context keeps its placeholders (global entries and per-namespace entries, nested at depth >= 2)"""
+    from taskchain import Config, Task
+    from taskchain.config import Context
+    from taskchain.parameter import Parameter
+    tmp = Path(tempfile.mkdtemp(prefix='c11r-'))
+    try:
+        class CtxProbe(Task):
+            class Meta:
+                parameters = [Parameter('glob', default=None), Parameter('per_ns', default=None), Parameter('flat', default=None)]
+
+            def run(self, glob, per_ns, flat) -> dict:
+                return {'glob': glob, 'per_ns': per_ns, 'flat': flat}
+
+        ns = rng.choice(['ns1', 'a::b', None])
+        per_ns = {'deep': ['{A}/x', {'k': 'pre-{B}', 'l': [['{A}{A}']]}], 'n': 1}
+        glob = ['{A}', {'m': ['{B}/{U}']}]
+        ctx_data = {'glob': copy.deepcopy(glob)}
+        if ns:
+            ctx_data['for_namespaces'] = {ns: {'per_ns': copy.deepcopy(per_ns), 'flat': 'f-{A}'}}
+        else:
+            ctx_data['per_ns'] = copy.deepcopy(per_ns)
+            ctx_data['flat'] = 'f-{A}'
+        kind = rng.choice(['dict', 'Context', 'list'])
+        ctx_obj = ctx_data if kind == 'dict' else (Context(data=ctx_data, name='reused') if kind == 'Context' else [ctx_data, {'other': 1}])
+        before = exact_types(ctx_data)
+        wit = {'namespace': ns, 'context_kind': kind, 'context': copy.deepcopy(ctx_data)}
+        vars_list = [{'A': 'alpha', 'B': 'b1'}, {'A': '/mnt/beta', 'B': 'b2'}, {'A': 'alpha', 'B': 'b3'}]
+        for i, vars_ in enumerate(vars_list[:rng.choice([2, 3])]):
+            style = rng.choice(GV_STYLES)
+            try:
+                cfg = Config(tmp / f'd{i}', name='reuse', namespace=ns, data={'tasks': [CtxProbe]}, global_vars=make_gv(vars_, style), context=ctx_obj)
+                v = json.loads(json.dumps(cfg.chain()[(ns + '::' if ns else '') + 'ctx_probe'].value))
+            except Exception as e:
+                res.violate(f'config #{i} over a reused context could not be built/evaluated: {type(e).__name__}: {e}', witness=wit)
+                return
+            exp = {'glob': json.loads(json.dumps(glob).replace('{A}', vars_['A']).replace('{B}', vars_['B'])),
+                   'per_ns': json.loads(json.dumps(per_ns).replace('{A}', vars_['A']).replace('{B}', vars_['B'])),
+                   'flat': 'f-' + vars_['A']}
+            res.count('context_reuse_configs')
+            for k in exp:
+                if v.get(k) != exp[k]:
+                    res.violate(f'config #{i} built from a context object that an earlier config had used: task received {k}={v.get(k)!r}, expected {exp[k]!r} '
+                                f'(global_vars {vars_})', witness=wit)
+            after = exact_types(ctx_data)
+            if after != before:
+                res.violate(f'the caller\'s context was modified by building config #{i} (placeholders substituted in place): {short_diff(before, after)}', witness=wit)
+                return
+        res.nt(jhash(['ctxreuse', wit]))
+    finally:
+        shutil.rmtree(tmp, ignore_errors=True)
+
+
+def short_diff(a, b):
+    return f'{json.dumps(a)[:200]} -> {json.dumps(b)[:200]}'
+
+
 def run_case(case) -> CaseResult:
     res = CaseResult()
     rng = random.Random(case['seed'])
@@ -436,6 +510,7 @@ def run_case(case) -> CaseResult:
     else:
         for i in range(case['n']):
             check_config_case(rng, res)
+            check_context_reuse_case(rng, res)
         res.sample = {'kind': 'config', 'n': case['n']}
     return res
 
